@@ -61,6 +61,7 @@ def req_history(h):
     send, recv, send, ...; a refused call is an InvalidState error and changes nothing."""
     from .d_c09 import Fut, _req_socket, DYN
     from .d_c02 import _mk_msg, _tag
+    from .d_c07 import _frames
     from ..models import some, none, ok, err, dur_ns, _deref
     prog = h.it.prog
     k = h.params.get("ops", 4)
@@ -78,8 +79,10 @@ def req_history(h):
     opts = cs.f[csf.index("options")]
     of = prog.struct_fields("socket::options::SocketOptions")
     opts.f[of.index("rcvtimeo")] = some(dur_ns(0))
-    sent = {"n": 0}
+    sent = {"n": 0, "wire": []}
     def iface_send(it, args, dty, func):
+        from .d_c07 import _flag
+        sent["wire"].append([(_tag(m), bool(_flag(m, 1))) for m in _frames(args[1])])
         return Agg("{future}", ["peer_send"])
     h.it.hooks[DYN + "send_multipart"] = iface_send
     def extern(it, plain, args, dty, func):
@@ -123,9 +126,14 @@ def req_history(h):
             continue
         before = state_name()
         if op == 0:
-            f = Fut(h, "socket::req_socket::ReqSocket", "send", [sock, h.method("message::msg::Msg", "new")], trait="ISocket")
+            req_more = h.choose(2, f"request_more_flag{i}") == 1        # the application may leave MORE set on the request frame
+            n_wire = len(sent["wire"])
+            f = Fut(h, "socket::req_socket::ReqSocket", "send", [sock, _mk_msg(h, 0x51, req_more)], trait="ISocket")
             r = f.poll()
             h.check(r is not None, "c10.req-history.send-parked")
+            if r is not None and r.idx == 0:
+                # C02 clause on the REQ path: the request reaches the connection as [empty delimiter (MORE), request (no MORE)]
+                h.check(sent["wire"][n_wire:] == [[(None, True), (0x51, False)]], "c10.req-history.request-envelope-or-flags-wrong-on-the-wire", str(sent["wire"][n_wire:]))
             if r is None:
                 return
             if expecting:
